@@ -22,6 +22,18 @@
 //                 SymEigsShiftSolver<DenseSymShiftSolve<float | double | long double>>.
 //      Failures carry diagnostic match keys (weak_handover, residual_discarded, abs_threshold_regime, min_beta_rel, explained) taken from the
 //      factorization hooks; they never influence the predicate, only the known-finding classification (see `explain`).
+//  (c) structured share "zd" (zero-diagonal projected matrix) of EVERY stream (correspondence and oracle): a case becomes a zd case when the first
+//      draw of its own generator Rng(seed, 200 + stream, idx) says so (15 % of streams 0/1, 12 % of stream 2; the other cases are untouched).
+//      The matrix has a sparsity pattern that makes every Rayleigh quotient v_i' A v_i along the Lanczos vectors EXACTLY zero in floating point
+//      when the user-supplied start vector is supported on one part only (a structural zero: sums of products with exact zeros), so the projected
+//      tridiagonal matrix H has an exactly zero diagonal until the first restart / breakdown:
+//         zd_bipartite [0 B; B' 0], zd_checkerboard (A_ij != 0 only for i + j odd), zd_antidiag3 [0 0 B; 0 C 0; B' 0 0] (start vector zero on the
+//         C part), zd_permuted (random assignment of the indices to the parts P, Q and a decoupled part D), zd_blocktridiag (zero diagonal blocks,
+//         coupling between neighbouring blocks only), zd_imag_skew (HermEigsSolver: A = i K, K real skew-symmetric, REAL start vector);
+//         entries small integers / dyadic k/16 / generic doubles, optionally 40 % of them dropped, scaled by 2^{-4, 0, 3, 10}; sizes balanced
+//         (|P| - |Q| in {0, 1}, start on P: no breakdown before ncv steps) in 70 % of the cases; shift classes: |P| = |Q|, sigma = 0 (the inverse
+//         has the same pattern); histories init(one-sided v0); compute(any rule, ...) {; init(one-sided | default) | compute(...)}*.
+//      The "lanczos.factorize" hook counts the factorizations that end with diag(H) == 0 exactly (zd_compute_exact_zero_H_diagonal).
 //  Every case is a function of (seed, stream, idx) only, so a replay needs just those three numbers.
 #include "solver_common.h"
 #include <Spectra/MatOp/DenseSymShiftSolve.h>
@@ -41,6 +53,11 @@ struct SpectraVerifAccess {
     template <class S> static auto& fac(S& s) { return s.m_fac; }
     template <class F> static LD beta(const F& f) { return (LD) f.m_beta; }
     template <class F> static long k(const F& f) { return (long) f.m_k; }
+    // the projected matrix of a complete factorization (k = m >= 2) has an EXACTLY zero diagonal (and is not the zero matrix)
+    template <class F> static bool zero_diag(const F& f) {
+        if (f.m_k != f.m_m || f.m_m < 2) return false; bool off = false;
+        for (long i = 0; i < f.m_m; i++) { if (std::real(CL(f.m_fac_H(i, i))) != 0) return false; if (i > 0 && std::real(CL(f.m_fac_H(i, i - 1))) != 0) off = true; }
+        return off; }
     template <class F> static std::string fachash(const F& f) {
         uint64_t h = 1469598103934665603ull; auto feed = [&h](double x) { uint64_t u = dbits(x + 0.0); for (int b = 0; b < 8; b++) { h ^= (u >> (8 * b)) & 0xff; h *= 1099511628211ull; } };
         auto rd = [](auto x) { return (double) std::real(CL(x)); };     // only ever used for the double classes (identity there)
@@ -54,7 +71,7 @@ struct SpectraVerifAccess {
 typedef SpectraVerifAccess AX;
 
 // observer: regime diagnostics used ONLY as match keys of known findings (never to decide the predicate)
-struct Diag { LD normOp = 0; LD opcond = 1; LD sqrtmin = 0; bool weak = false; bool nanfac = false; long points = 0; long nexpand = 0; bool betazero = false; bool expand_underflow = false; LD minrel = 1e300L; };
+struct Diag { LD normOp = 0; LD opcond = 1; LD sqrtmin = 0; bool weak = false; bool nanfac = false; long points = 0; long nexpand = 0; bool betazero = false; bool expand_underflow = false; LD minrel = 1e300L; long zdiag = 0; };
 static bool g_debug = false;
 template <class Fac> struct Obs : public Spectra::verif::Observer {
     Diag* d; explicit Obs(Diag* d_) : d(d_) {}
@@ -69,7 +86,7 @@ template <class Fac> struct Obs : public Spectra::verif::Observer {
         LD b = AX::beta(*f);
         if (!(b == b) || std::isinf((double) b)) { d->nanfac = true; return; }
         if (b == 0) d->betazero = true;              // exact zero: genuine, or the `beta < eps*sqrt(n)  =>  f := 0` shortcut
-        if (fin) return;
+        if (fin) { if (AX::zero_diag(*f)) d->zdiag++; return; }
         d->minrel = std::min(d->minrel, fabsl(b) / d->normOp);
         if (fabsl(b) < 1e-2L * d->normOp) d->weak = true;      // same criterion as C07 (F12a): residual handed over by init / compress_V with beta < 1e-2 ||Op||_F
     }
@@ -111,14 +128,19 @@ static bool inverse_q(const Mat& A, double sigma, std::vector<Q>& inv) {
 }
 
 // ---------------------------------------------------------------- problems
-static const char* KIND[] = {"generic", "clustered", "repeated", "graded", "lowrank", "blockdiag", "lowrank_exact"};
-static const char* START[] = {"default", "random", "eigenvector", "two_eigenvectors", "nullspace", "invariant_block"};
+static const char* KIND[] = {"generic", "clustered", "repeated", "graded", "lowrank", "blockdiag", "lowrank_exact",
+                             "zd_bipartite", "zd_checkerboard", "zd_antidiag3", "zd_permuted", "zd_blocktridiag", "zd_imag_skew"};       // 7..12: the structured share (c)
+static const char* START[] = {"default", "random", "eigenvector", "two_eigenvectors", "nullspace", "invariant_block", "one_sided", "real_vector"};
+static const char* ZDSTYLE[] = {"int", "dyadic", "generic"};
 struct Problem {
     int n = 0, kind = 0, scale_exp = 0; bool cplx = false;
     CMat A;            // Hermitian (real symmetric when !cplx), double entries
     CMat U;            // the eigenvector matrix it was built from (columns)
     Vec d;             // the spectrum it was built from (already scaled)
     int h = 0;         // size of the leading block (blockdiag / lowrank_exact), else n
+    // structured share (c): part[i] = 0 (P, carries the start vector), 1 (Q), 2 (D, decoupled from P and Q)
+    bool zd = false; std::vector<int> part; int style = 0, e2 = 0, np = 0, nq = 0, nd = 0; bool sparse = false, balanced = false;
+    std::string zdesc() const { return std::string("layout=") + KIND[kind] + " P=" + str(np) + " Q=" + str(nq) + " D=" + str(nd) + " entries=" + ZDSTYLE[style] + (sparse ? " sparse" : " dense") + " scale=2^" + str(e2) + (balanced ? " balanced" : " unbalanced"); }
 };
 static CMat rand_unitary(Rng& r, int n, bool cplx) {
     if (n == 0) return CMat(0, 0);
@@ -163,6 +185,69 @@ static CVec start_vector(Rng& r, const Problem& p, int sk) {
     return v;
 }
 
+// ---- structured share (c): matrices whose Lanczos vectors from a one-sided start have exactly zero Rayleigh quotients ----
+static double zd_entry(Rng& r, int style, bool nonzero) {
+    for (;;) { double v = style == 0 ? (double) r.range(-3, 3) : style == 1 ? (double) r.range(-32, 32) / 16.0 : r.sym(); if (v != 0 || !nonzero) return v; }
+}
+// layout 0 bipartite, 1 checkerboard, 2 antidiag3, 3 permuted, 4 blocktridiag, 5 imag_skew (cplx only); need_inv: |P| = |Q| and D coupled to itself only
+// (so that the inverse exists for generic entries and has the same pattern)
+static Problem make_zd_problem(Rng& r, int n, bool cplx, bool need_inv) {
+    Problem p; p.n = n; p.cplx = cplx; p.h = n; p.zd = true; p.scale_exp = 0; p.part.assign(n, 0);
+    int layout;
+    if (cplx && r.coin(0.4)) layout = 5;
+    else if (need_inv) { if (n % 2) layout = r.coin() ? 2 : 3; else { static const int ev[4] = {0, 1, 2, 3}; layout = ev[r.below(4)]; if (layout == 2 && n < 4) layout = 0; } }
+    else { layout = (int) r.below(5); if (layout == 2 && n < 3) layout = 0; }
+    p.kind = 7 + layout; p.style = (int) r.below(3); p.sparse = r.coin(0.35) && !need_inv; static const int e2s[5] = {-4, 0, 0, 3, 10}; p.e2 = e2s[r.below(5)];
+    const bool want_bal = need_inv || r.coin(0.7);
+    std::vector<int> blk(n, 0);         // blocktridiag: block number of every index
+    if (layout == 5) { p.np = n; }
+    else if (layout == 1) { const int sw = (n % 2 == 0 && r.coin()) || (n % 2 == 1 && !want_bal) ? 1 : 0; for (int i = 0; i < n; i++) p.part[i] = (i + sw) % 2; }
+    else if (layout == 4) {
+        int nb = r.range(2, std::min(n, 5)); std::vector<int> cut; for (int i = 1; i < n; i++) cut.push_back(i);
+        for (int i = (int) cut.size() - 1; i > 0; i--) std::swap(cut[i], cut[r.below(i + 1)]); cut.resize(nb - 1); std::sort(cut.begin(), cut.end());
+        int b = 0; for (int i = 0; i < n; i++) { if (b < nb - 1 && i == cut[b]) b++; blk[i] = b; } const int sw = r.coin() ? 1 : 0; for (int i = 0; i < n; i++) p.part[i] = (blk[i] + sw) % 2;
+    } else {
+        int nd = 0;
+        if (need_inv) { nd = n % 2; if (layout >= 2 && n - nd >= 4 && (layout == 2 ? nd == 0 : r.coin(0.3))) nd += 2; }
+        else if (layout == 2) nd = r.range(1, std::max(1, std::min(n - 2, n / 3)));
+        else if (layout == 3 && n >= 3 && r.coin()) nd = r.range(0, std::min(n - 2, n / 3));
+        const int m = n - nd; int np = want_bal ? (m + 1) / 2 : r.range(1, m - 1), nq = m - np;
+        std::vector<int> lab; for (int i = 0; i < np; i++) lab.push_back(0);
+        if (layout == 2) { for (int i = 0; i < nd; i++) lab.push_back(2); for (int i = 0; i < nq; i++) lab.push_back(1); }
+        else { for (int i = 0; i < nq; i++) lab.push_back(1); for (int i = 0; i < nd; i++) lab.push_back(2); }
+        if (layout == 3) for (int i = n - 1; i > 0; i--) std::swap(lab[i], lab[r.below(i + 1)]);
+        p.part = lab;
+    }
+    if (layout != 5) { p.np = p.nq = p.nd = 0; for (int i = 0; i < n; i++) (p.part[i] == 0 ? p.np : p.part[i] == 1 ? p.nq : p.nd)++; }
+    p.balanced = layout == 5 || (p.np - p.nq == 0 || p.np - p.nq == 1);
+    const double dens = p.sparse ? 0.6 : 1.0;
+    CMat A = CMat::Zero(n, n);
+    for (int i = 0; i < n; i++) for (int j = i; j < n; j++) {
+        const int a = p.part[i], b = p.part[j]; bool allowed; bool skew = false;
+        if (layout == 5) { allowed = i != j; skew = true; }
+        else if (a == 2 && b == 2) allowed = true;                                     // the decoupled part: any symmetric / Hermitian block
+        else allowed = (a + b == 1) && (layout != 4 || std::abs(blk[i] - blk[j]) == 1);
+        if (!allowed) continue;
+        if (!r.coin(dens)) continue;
+        CD v;
+        if (skew) v = CD(0.0, zd_entry(r, p.style, false));
+        else if (i == j || !cplx) v = CD(zd_entry(r, p.style, need_inv), 0.0);
+        else v = CD(zd_entry(r, p.style, false), zd_entry(r, p.style, false));
+        A(i, j) = v; A(j, i) = std::conj(v);
+    }
+    p.A = A * std::ldexp(1.0, p.e2); p.U = CMat(); p.d = Vec();
+    return p;
+}
+// start vector supported on (a non-empty subset of) the part P; zd_imag_skew: a real vector
+static CVec zd_start_vector(Rng& r, const Problem& p, bool& subset) {
+    const int n = p.n; CVec v = CVec::Zero(n); std::vector<int> sup; for (int i = 0; i < n; i++) if (p.part[i] == 0) sup.push_back(i);
+    subset = false;
+    if (sup.size() > 1 && r.coin(0.3)) { std::vector<int> s2; for (int i : sup) if (r.coin()) s2.push_back(i); if (s2.empty()) s2.push_back(sup[r.below(sup.size())]); if (s2.size() < sup.size()) subset = true; sup = s2; }
+    const bool cz = p.cplx && p.kind != 12;
+    for (int i : sup) v[i] = CD(zd_entry(r, p.style, true), cz ? zd_entry(r, p.style, false) : 0.0);
+    return v;
+}
+
 struct HCall { char kind; CVec v0; int startkind = 1; int sel = 0, sort = 3; long maxit = 1000; double tol = 1e-10; };
 static std::vector<HCall> gen_history(Rng& r, const Problem& p, bool allow_before_init) {
     static const int hsel[5] = {0, 3, 4, 7, 8}, hsort[4] = {0, 3, 4, 7}; static const long mi[5] = {0, 1, 2, 5, 1000};
@@ -176,18 +261,32 @@ static std::vector<HCall> gen_history(Rng& r, const Problem& p, bool allow_befor
     if (h.back().kind != 'C') h.push_back(mk_comp());
     return h;
 }
+// structured share (c): init(one-sided v0); compute(...) { ; init(one-sided | default) | compute(...) }*
+static std::vector<HCall> gen_history_zd(Rng& r, const Problem& p, Out& out) {
+    static const int hsel[5] = {0, 3, 4, 7, 8}, hsort[4] = {0, 3, 4, 7}; static const long mi[6] = {0, 1, 2, 5, 1000, 1000};
+    const double tl[3] = {1e-3, 1e-10, 4 * 2.220446049250313e-16};
+    std::vector<HCall> h; const int len = r.range(2, 5);
+    auto mk_init = [&](bool allow_default) { HCall k; k.kind = 'I'; if (allow_default && r.coin(0.2)) { k.kind = 'J'; k.startkind = 0; return k; }
+        bool sub = false; k.v0 = zd_start_vector(r, p, sub); k.startkind = p.kind == 12 ? 7 : 6; if (sub) out.count("zd_start_subset_of_part"); return k; };
+    auto mk_comp = [&]() { HCall k; k.kind = 'C'; k.sel = hsel[r.below(5)]; k.sort = hsort[r.below(4)]; k.maxit = mi[r.below(6)]; k.tol = tl[r.below(3)]; return k; };
+    h.push_back(mk_init(false)); h.push_back(mk_comp());
+    while ((int) h.size() < len) { if (r.coin(0.2)) h.push_back(mk_init(true)); else h.push_back(mk_comp()); }
+    if (h.back().kind != 'C') h.push_back(mk_comp());
+    return h;
+}
 
 // ---------------------------------------------------------------- the oracle on one returned result
 struct Case {
     Out* out; uint64_t seed; int stream; long idx; std::string cls; int n, nev, ncv; const Problem* p; double sigma = 0; bool shift = false;
     LD eps; Diag diag; int Av0_zero = 0; std::string hist; int startkind = 0;
+    long zdiag_total = 0;     // factorizations of this case that ended with an exactly zero diag(H)
     LD max_res_ratio = 0, max_orth_ratio = 0; bool ever_regime = false;   // ever_regime: some compute() of the case ran under weak hand-over / discarded residual
 };
 static std::string sci(LD x) { char b[64]; snprintf(b, sizeof b, "%.3Le", x); return b; }
 static std::string rj(const Case& c, const std::string& extra = "") {
     return "{\"harness\":\"c01\",\"c01seed\":" + str(c.seed) + ",\"c01stream\":" + str(c.stream) + ",\"c01idx\":" + str(c.idx) + ",\"class\":\"" + c.cls + "\",\"n\":" + str(c.n) + ",\"nev\":" + str(c.nev) + ",\"ncv\":" + str(c.ncv) +
            ",\"kind\":\"" + KIND[c.p->kind] + "\",\"scale_exp\":" + str(c.p->scale_exp) + ",\"sigma\":" + str(c.sigma) + ",\"start\":\"" + START[c.startkind] + "\",\"weak_handover\":" + str((int) c.diag.weak) +
-           ",\"nan_factorization\":" + str((int) c.diag.nanfac) + ",\"residual_discarded\":" + str((int) (c.diag.nexpand > 0 || c.diag.betazero)) + ",\"abs_threshold_regime\":" + str((int) (c.diag.normOp * C2 * sqrtl((LD) c.n) < 1.0L)) + ",\"min_beta_rel\":" + sci(c.diag.minrel) + ",\"Av0_zero\":" + str(c.Av0_zero) + ",\"calls\":\"" + jesc(c.hist) + "\"" + extra + "}";
+           ",\"nan_factorization\":" + str((int) c.diag.nanfac) + ",\"residual_discarded\":" + str((int) (c.diag.nexpand > 0 || c.diag.betazero)) + ",\"abs_threshold_regime\":" + str((int) (c.diag.normOp * C2 * sqrtl((LD) c.n) < 1.0L)) + ",\"min_beta_rel\":" + sci(c.diag.minrel) + ",\"Av0_zero\":" + str(c.Av0_zero) + ",\"calls\":\"" + jesc(c.hist) + "\"" + (c.p->zd ? ",\"zd\":\"" + c.p->zdesc() + "\",\"zero_diag_factorizations\":" + str(c.zdiag_total) : std::string()) + extra + "}";
 }
 
 // Match key `explained` of a failure (NEVER used to decide the predicate, only to tell the two known defect families of the unchanged
@@ -296,7 +395,7 @@ static void drive(Solver& s, Case& c, const std::vector<HCall>& calls, const Her
             continue;
         }
         c.hist += "compute(" + str(k.sel) + "," + str(k.maxit) + "," + str(k.tol) + "," + str(k.sort) + ");";
-        long r = -1; bool threw = false; std::string ex;
+        long r = -1; bool threw = false; std::string ex; c.diag.zdiag = 0;
         const double tol = (k.tol < 1e-14) ? (double) (4 * c.eps) : k.tol;      // "4 eps" means 4 eps of the solver's scalar type
         if (req) *req += " | C " + str(k.sel) + " " + str(k.maxit) + " " + str(dbits(tol)) + " " + str(k.sort);
         try { r = (long) s.compute((SortRule) k.sel, k.maxit, (typename RealOf<S>::type) tol, (SortRule) k.sort); }
@@ -319,6 +418,8 @@ static void drive(Solver& s, Case& c, const std::vector<HCall>& calls, const Her
         if (c.Av0_zero) out.count(std::string("Av0_zero_compute_returns_") + str(r));
         if (c.diag.weak || c.diag.nexpand > 0 || c.diag.betazero || c.diag.nanfac) c.ever_regime = true;
         if (c.diag.weak) out.count("regime_weak_handover"); if (c.diag.nexpand > 0 || c.diag.betazero) out.count("regime_residual_discarded");
+        if (c.diag.zdiag > 0) { c.zdiag_total += c.diag.zdiag; out.count("regime_exact_zero_H_diagonal"); if (c.p->zd) { out.count("zd_compute_exact_zero_H_diagonal"); out.count("zd_compute_exact_zero_H_diagonal_sel_" + str(k.sel)); } }
+        if (c.p->zd) out.count("zd_compute_returned");
         if (g_debug) fprintf(stderr, "[call] %s -> ret=%ld info=%d\n", c.hist.c_str(), r, info);
         check_pairs(c, A, Opm, invF, ev, X, tol, r, info);
     }
@@ -387,20 +488,31 @@ static void one_case(uint64_t seed, int stream, long idx, Out& out) {
            // correspondence streams: every std::sort the code performs (ncv Ritz values, nev values, ncv - k shifts) stays within the 16 elements for which
            // libstdc++'s sort is the stable insertion sort the model uses; oracle-only stream: ncv - nev <= 16
            ncv = stream < 2 ? r.range(nev + 1, 16) : r.range(nev + 1, std::min(n, nev + 16)); }
-    const int kind = (int) r.below(7); static const int sexp[5] = {-8, -4, 0, 4, 8}; const int scale_exp = sexp[r.below(5)];
+    int kind = (int) r.below(7); static const int sexp[5] = {-8, -4, 0, 4, 8}; const int scale_exp = sexp[r.below(5)];
+    // structured share (c): decided and generated by the case's OWN second generator, so that every other case is exactly what it was without the share
+    Rng rz(seed, 200 + stream, (uint64_t) idx);
+    const bool zd = rz.coin(stream < 2 ? 0.15 : 0.12);
     Case c; c.out = &out; c.seed = seed; c.stream = stream; c.idx = idx; c.n = n; c.nev = nev; c.ncv = ncv;
-    out.count(std::string("kind_") + KIND[kind]); out.count("scale_1e" + str(scale_exp)); out.count(big ? "size_11_40" : "size_2_10");
+    Problem p;
+    auto tags = [&]() {
+        out.count(std::string("kind_") + KIND[p.kind]); out.count(big ? "size_11_40" : "size_2_10");
+        if (!p.zd) { out.count("scale_1e" + str(scale_exp)); return; }
+        out.count("zd_cases"); out.count("zd_stream_" + str(stream)); out.count(std::string("zd_entries_") + ZDSTYLE[p.style]); out.count("zd_scale_2e" + str(p.e2));
+        out.count(p.balanced ? "zd_balanced" : "zd_unbalanced"); out.count(p.sparse ? "zd_sparse" : "zd_dense"); if (p.nd > 0) out.count("zd_with_decoupled_part");
+    };
     try {
     if (stream == 0) {
-        Problem p = make_problem(r, n, kind, scale_exp, false); c.p = &p; std::vector<HCall> calls = gen_history(r, p, true);
+        p = zd ? make_zd_problem(rz, n, false, false) : make_problem(r, n, kind, scale_exp, false); c.p = &p; tags();
+        std::vector<HCall> calls = zd ? gen_history_zd(rz, p, out) : gen_history(r, p, true);
         Mat A = p.A.real(); OpLog log; LoopMatOp op(A, log); Spectra::SymEigsSolver<LoopMatOp> s(op, nev, ncv); c.cls = "SymEigsSolver"; c.eps = 2.220446049250313e-16L; c.diag.sqrtmin = sqrtl((LD) std::numeric_limits<double>::min());
         Herm H = herm_of(A.cast<CL>()); c.diag.normOp = H.fro();
         std::string req = herm_header(0, n, nev, ncv, 0.0, A), resp;
         drive<decltype(s), double>(s, c, calls, H, nullptr, 0, &req, &resp);
         out.corr(req, resp.size() > 3 ? resp.substr(3) : resp);
     } else if (stream == 1) {
-        Problem p = make_problem(r, n, kind, scale_exp, false); c.p = &p; std::vector<HCall> calls = gen_history(r, p, true);
-        Mat A = p.A.real(); const double sigma = pick_sigma(r, p); c.sigma = sigma; c.shift = true;
+        p = zd ? make_zd_problem(rz, n, false, true) : make_problem(r, n, kind, scale_exp, false); c.p = &p; tags();
+        std::vector<HCall> calls = zd ? gen_history_zd(rz, p, out) : gen_history(r, p, true);
+        Mat A = p.A.real(); const double sigma = zd ? 0.0 : pick_sigma(r, p); c.sigma = sigma; c.shift = true;     // zd: (A - 0 I)^-1 has the pattern of A
         std::vector<Q> inv; if (!inverse_q(A, sigma, inv)) { out.count("shift_singular_skipped"); return; }
         Mat Inv(n, n); for (int i = 0; i < n; i++) for (int j = 0; j < n; j++) Inv(i, j) = (double) inv[(size_t) i * n + j];
         bool fin = true; for (int i = 0; i < n * n; i++) if (!std::isfinite(Inv.data()[i])) fin = false; if (!fin) { out.count("shift_singular_skipped"); return; }
@@ -413,20 +525,23 @@ static void one_case(uint64_t seed, int stream, long idx, Out& out) {
     } else {
         const int inst = (int) (idx % 8);
         const bool cplx = (inst >= 2 && inst <= 4);
-        Problem p = make_problem(r, n, kind, scale_exp, cplx); c.p = &p; std::vector<HCall> calls = gen_history(r, p, false);
+        p = zd ? make_zd_problem(rz, n, cplx, inst >= 5) : make_problem(r, n, kind, scale_exp, cplx); c.p = &p; tags();
+        std::vector<HCall> calls = zd ? gen_history_zd(rz, p, out) : gen_history(r, p, false);
         // float: keep the scale inside the float range of the squares the code forms
-        out.count("inst_" + str(inst));
+        out.count("inst_" + str(inst)); if (zd) out.count("zd_inst_" + str(inst));
+        auto sg = [&]() { return zd ? 0.0 : pick_sigma(r, p); };
         switch (inst) {
             case 0: c.cls = "SymEigsSolver<float>"; oracle_sym<float>(c, p, calls); break;
             case 1: c.cls = "SymEigsSolver<long double>"; oracle_sym<long double>(c, p, calls); break;
             case 2: c.cls = "HermEigsSolver<complex<float>>"; oracle_herm<float>(c, p, calls); break;
             case 3: c.cls = "HermEigsSolver<complex<double>>"; oracle_herm<double>(c, p, calls); break;
             case 4: c.cls = "HermEigsSolver<complex<long double>>"; oracle_herm<long double>(c, p, calls); break;
-            case 5: c.cls = "SymEigsShiftSolver<float>"; oracle_shift<float>(c, p, calls, pick_sigma(r, p)); break;
-            case 6: c.cls = "SymEigsShiftSolver<double>"; oracle_shift<double>(c, p, calls, pick_sigma(r, p)); break;
-            default: c.cls = "SymEigsShiftSolver<long double>"; oracle_shift<long double>(c, p, calls, pick_sigma(r, p)); break;
+            case 5: c.cls = "SymEigsShiftSolver<float>"; oracle_shift<float>(c, p, calls, sg()); break;
+            case 6: c.cls = "SymEigsShiftSolver<double>"; oracle_shift<double>(c, p, calls, sg()); break;
+            default: c.cls = "SymEigsShiftSolver<long double>"; oracle_shift<long double>(c, p, calls, sg()); break;
         }
     }
+    if (p.zd && c.zdiag_total > 0) out.count("zd_cases_with_exact_zero_H_diagonal");
     } catch (const std::exception& e) { out.count(std::string("case_exception_") + (dynamic_cast<const std::invalid_argument*>(&e) ? "invalid_argument" : "other")); }
     Spectra::verif::observer() = nullptr;
     static LD gres = 0, gorth = 0, cres = 0, corth = 0; gres = std::max(gres, c.max_res_ratio); gorth = std::max(gorth, c.max_orth_ratio);
